@@ -128,7 +128,8 @@ func c01Cases(tier string) []SyncCase {
 				// off, change callback + content hasher installed, a receiver-side Filter that rewrites ownership
 				if tier != "thorough" || k == 0 {
 					cases = append(cases, SyncCase{Src: s, Dst: d, Differ: 1}, SyncCase{Src: s, Dst: d, Notify: true, Mem: true}, SyncCase{Src: s, Dst: d, Merge: true, Differ: 1, Notify: true},
-						SyncCase{Src: s, Dst: d, FilterShift: true}, SyncCase{Src: s, Dst: d, FilterShift: true, Merge: true, Notify: true})
+						SyncCase{Src: s, Dst: d, FilterShift: true}, SyncCase{Src: s, Dst: d, FilterShift: true, Merge: true, Notify: true},
+						SyncCase{Src: s, Dst: d, ViaLinks: true}, SyncCase{Src: s, Dst: d, ViaLinks: true, Merge: true, Notify: true})
 				}
 			}
 		}
